@@ -426,6 +426,41 @@ func (in *Interp) runFrame(fr *frame) {
 	}
 }
 
+// allocGuard: with an allocation limit set, a symbolic allocation size that can exceed the
+// limit is a violation (found by the solver), and the path continues with size <= limit.
+func (in *Interp) allocGuard(sz *Term) {
+	if in.P == nil || !in.P.allocLimitOn || sz.IsConst() {
+		return
+	}
+	lim := in.tt.BV(sz.sort.W, uint64(in.P.allocLimit+in.opts.AllocSlack))
+	over := in.tt.Cmp(OUlt, lim, sz) // unsigned: negative sizes count as huge
+	if in.branch(over) {
+		// prefer a model with a clearly excessive size so that the native replay can observe it
+		big := in.tt.Cmp(OUlt, in.tt.BV(sz.sort.W, 1<<26), sz)
+		res, m := in.solver.Check(in.tt, big, true, in.inputVars())
+		if res != Sat {
+			res, m = in.solver.Check(in.tt, nil, true, in.inputVars())
+		}
+		if res == Sat {
+			in.recordViolation("allocation beyond limit", "symbolic allocation size can exceed the limit", m, in.stackString())
+		}
+		panic(pathEnd{"violation"})
+	}
+}
+
+func (in *Interp) noteAlloc(n int) {
+	if in.P == nil {
+		return
+	}
+	in.P.allocs = append(in.P.allocs, n)
+	if in.P.allocLimitOn && n > in.P.allocLimit+in.opts.AllocSlack {
+		res, m := in.solver.Check(in.tt, nil, true, in.inputVars())
+		if res == Sat {
+			in.recordViolation("allocation beyond limit", fmt.Sprintf("allocation of %d elements with limit %d", n, in.P.allocLimit), m, in.stackString())
+		}
+	}
+}
+
 func (in *Interp) zeroResults(fn *ssa.Function) Value {
 	res := fn.Signature.Results()
 	switch res.Len() {
@@ -616,18 +651,17 @@ func (in *Interp) visit(fr *frame, instr ssa.Instruction) int {
 			p.obj.v = in.zero(t)
 		}
 	case *ssa.MakeSlice:
+		in.allocGuard(fr.get(instr.Cap).(*Term))
 		ln := in.concreteIntChecked(fr.get(instr.Len), "makeslice: len out of range")
 		cp := in.concreteIntChecked(fr.get(instr.Cap), "makeslice: cap out of range")
 		if ln < 0 || cp < ln {
 			in.goPanic("runtime error: makeslice: len out of range")
 		}
+		in.noteAlloc(int(cp))
 		if cp > int64(in.opts.MaxAlloc) {
 			panic(boundExceeded{fmt.Sprintf("MakeSlice cap %d", cp)})
 		}
 		et := instr.Type().Underlying().(*types.Slice).Elem()
-		if in.P != nil {
-			in.P.allocs = append(in.P.allocs, int(cp))
-		}
 		es := make([]Value, cp)
 		z := in.zero(et)
 		for i := range es {
